@@ -65,10 +65,24 @@ def run(ctx):
         hangs = [l for l in open(path) if '"out":"hang"' in l][:1]      # one per process: the stuck goroutine keeps the driver mutex
         open(path, "w").writelines(hangs)
         if hangs:
-            rep = ctx.run_replay("replay-sqlhist", ["-in", path, "-seed", seed], "replay-sqlhist-two-options", sigkeys=("kind",))
-            # the model predicts "hang" here; when the code hangs as predicted that is the recorded finding
-            ctx.violation({"check": "two-option-strings-same-file"}, {"histories": [json.loads(h) for h in hangs]},
-                          "a second handle on an open file with another option string blocks forever (model and code agree)") if not rep.get("mismatches") else None
+            # The model (cache keyed by file+options, exclusive file lock) predicts a hang here.  Only a hang or a
+            # panic of the real code is reported (the hang is the recorded known finding); any orderly outcome --
+            # an error, or a shared connection answering correctly -- satisfies the property.
+            rc, out, err = ctx.drive(["replay-sqlhist", "-in", path, "-seed", seed], env_extra={"VERIF_WORK": ctx.work}, timeout=600)
+            if rc != 0:
+                raise Broken("replay-sqlhist (two option strings) failed: " + err[-1500:])
+            rep = json.loads(out.strip().splitlines()[-1])
+            ctx.cov["replayed_behaviours"] += rep.get("behaviours", 0)
+            hung = not rep.get("mismatches")          # the model's "hang" was matched step by step
+            for m in rep.get("mismatches", []):
+                if m.get("got") == "panic":
+                    ctx.violation({"check": "replay-sqlhist-two-options", "kind": "panic"}, m, "second handle with another option string: panic " + json.dumps(m)[:600])
+                elif m.get("got") == "hang":
+                    hung = True
+            if hung:
+                ctx.violation({"check": "two-option-strings-same-file"}, {"histories": [json.loads(h) for h in hangs]},
+                              "a second handle on an open file with another option string blocks forever (model and code agree)")
+            log("[replay] two option strings on one file: %s" % ("hang (known finding)" if hung else "no hang"))
         race = ctx.build_harness(race=True)
         tr = os.path.join(ctx.work, "sqlconc.ndjson")
         fam_conc._race_record(ctx, race, "record-sql-conc", ["-seed", seed, "-cycles", "40" if thorough else "12"], tr)
